@@ -59,7 +59,7 @@ func init() {
 			"documents that fail Load or Validate are discarded (counted); only documents passing Validate are in scope",
 			"hang = one message consuming more than 30 CPU-seconds; memory blow-up = 8 GiB address-space limit hit (both reported with the message)",
 		},
-		Shards:         func(string) int { return 20 }, // 16 workload shards + 4 probe shards (inputs that may kill the process, one process per fatal one)
+		Shards:         func(string) int { return 22 }, // 16 workload shards + 6 probe shards (inputs that may kill the process, one process per fatal one)
 		Run:            runC10,
 		Replay:         replayC10,
 		CaseCPUSeconds: 30,
@@ -529,6 +529,10 @@ func runC10(c *core.Ctx) {
 			c10ProbeRecursiveDefault(c)
 		case workShards + 2:
 			c10ProbeCycleInDecoder(c, "parameter")
+		case workShards + 4:
+			c10ProbeRecursiveObjectParameter(c)
+		case workShards + 5:
+			c10ProbeDirected(c)
 		default:
 			c10ProbeCycleInDecoder(c, "form")
 		}
@@ -953,6 +957,136 @@ func c10ProbeCycleInDecoder(c *core.Ctx, which string) {
 		debug.SetMaxStack(64 << 20)
 		if pi := core.Guard(func() { openapi3filter.ValidateRequest(bgCtx, in) }); pi != nil {
 			c.Violate(core.PanicFeatures(pi), map[string]any{"probe": name}, pi.Stack)
+		}
+	}
+}
+
+// c10ProbeRecursiveObjectParameter: a PRODUCTIVE recursion, the ordinary tree node (an object with a name and a child
+// that is a node again), as the schema of object parameters in every location and style that carries objects, and of
+// form bodies. Each request names a few keys, some at depth; the decoders must come back (with any verdict). One process
+// of its own: unbounded descent along the schema instead of along the data ends in a stack overflow.
+func c10ProbeRecursiveObjectParameter(c *core.Ctx) {
+	c.ForceWAL()
+	node := gen.S{"type": "object", "properties": gen.S{"name": gen.S{"type": "string"}, "n": gen.S{"type": "integer"}, "child": gen.S{"$ref": "#/components/schemas/Node"},
+		"kids": gen.S{"type": "array", "items": gen.S{"$ref": "#/components/schemas/Node"}}}}
+	wrapped := gen.S{"allOf": gen.Arr(gen.S{"$ref": "#/components/schemas/Node"})}
+	alt := gen.S{"oneOf": gen.Arr(gen.S{"$ref": "#/components/schemas/Node"}, gen.S{"type": "object", "required": gen.Arr("zz"), "properties": gen.S{"zz": gen.S{"$ref": "#/components/schemas/Alt"}}})}
+	ref := func(n string) gen.S { return gen.S{"$ref": "#/components/schemas/" + n} }
+	params := gen.Arr(
+		gen.S{"name": "d", "in": "query", "style": "deepObject", "explode": true, "schema": ref("Node")},
+		gen.S{"name": "dw", "in": "query", "style": "deepObject", "explode": true, "schema": ref("Wrapped")},
+		gen.S{"name": "da", "in": "query", "style": "deepObject", "explode": true, "schema": ref("Alt")},
+		gen.S{"name": "f", "in": "query", "style": "form", "explode": false, "schema": ref("Node")},
+		gen.S{"name": "X-Node", "in": "header", "schema": ref("Node")},
+		gen.S{"name": "ck", "in": "cookie", "explode": false, "schema": ref("Node")},
+		gen.S{"name": "pp", "in": "path", "required": true, "schema": ref("Node")})
+	doc := baseDoc(gen.S{"/t/{pp}": gen.S{"get": gen.S{"parameters": params, "responses": okResponses()},
+		"post": gen.S{"parameters": gen.Arr(params[6]), "responses": okResponses(), "requestBody": gen.S{"content": gen.S{"application/x-www-form-urlencoded": gen.S{"schema": ref("Node")}, "multipart/form-data": gen.S{"schema": ref("Node")}}}}},
+		"/e": gen.S{"get": gen.S{"parameters": gen.Arr(gen.S{"name": "e", "in": "query", "schema": ref("Node")}), "responses": okResponses()}}})
+	doc["components"] = gen.S{"schemas": gen.S{"Node": node, "Wrapped": wrapped, "Alt": alt}}
+	d, err := loadDoc(doc)
+	if err != nil {
+		c.Cover("probes", "recursive-object-parameter-doc-rejected")
+		return
+	}
+	router, err := gorillamux.NewRouter(d)
+	if err != nil {
+		return
+	}
+	form := http.Header{"Content-Type": []string{"application/x-www-form-urlencoded"}}
+	reqs := []*http.Request{
+		newReq("GET", "http://h.t/t/name,a?d[name]=a", nil, nil),
+		newReq("GET", "http://h.t/t/name,a?d[child][name]=b&d[n]=1", nil, nil),
+		newReq("GET", "http://h.t/t/name,a?d[child][child][child][n]=x", nil, nil),
+		newReq("GET", "http://h.t/t/name,a?d[kids][0][name]=k&d[kids][1][child][name]=z", nil, nil),
+		newReq("GET", "http://h.t/t/name,a?dw[name]=a&dw[child][name]=b", nil, nil),
+		newReq("GET", "http://h.t/t/name,a?da[name]=a", nil, nil),
+		newReq("GET", "http://h.t/t/name,a?da[zz][zz][name]=a", nil, nil),
+		newReq("GET", "http://h.t/t/name,a?f=name,a,n,2", nil, nil),
+		newReq("GET", "http://h.t/t/name,a", http.Header{"X-Node": []string{"name,a,n,2"}, "Cookie": []string{"ck=name,a"}}, nil),
+		newReq("GET", "http://h.t/t/name,a,child,b", nil, nil),
+		newReq("GET", "http://h.t/e?name=a&n=3", nil, nil),
+		newReq("GET", "http://h.t/e?other=1", nil, nil),
+		newReq("GET", "http://h.t/e", nil, nil),
+		newReq("POST", "http://h.t/t/n,1", form, []byte("name=a&n=2")),
+		newReq("POST", "http://h.t/t/n,1", form, []byte("child=x")),
+		newReq("POST", "http://h.t/t/n,1", form, []byte("")),
+	}
+	debug.SetMaxStack(64 << 20)
+	for _, req := range reqs {
+		name := "recursive-object-parameter"
+		c.Begin("probe:" + name + " " + req.Method + " " + req.URL.String())
+		c.Distinct("probe:" + name + " " + req.Method + " " + req.URL.String())
+		c.Cover("probes", name)
+		in, err := reqInput(router, req, &openapi3filter.Options{MultiError: true})
+		if err != nil {
+			c.Cover("probes", name+"-not-routed")
+			continue
+		}
+		c.Eval()
+		if pi := core.Guard(func() { openapi3filter.ValidateRequest(bgCtx, in) }); pi != nil {
+			c.Violate(core.PanicFeatures(pi), map[string]any{"probe": name, "request": req.Method + " " + req.URL.String()}, pi.Stack)
+		}
+	}
+}
+
+// c10ProbeDirected: single requests aimed at places where the decoders size or fill something from what the client
+// sent: a form body whose undeclared field falls under an additionalProperties schema with defaults, an array index inside
+// a deepObject key, a caller-supplied QueryParams map holding a key without values. One process of its own (a huge
+// allocation is fatal, not a panic).
+func c10ProbeDirected(c *core.Ctx) {
+	c.ForceWAL()
+	doc := baseDoc(gen.S{
+		"/f": gen.S{"post": gen.S{"responses": okResponses(), "requestBody": gen.S{"content": gen.S{"application/x-www-form-urlencoded": gen.S{"schema": gen.S{"type": "object",
+			"additionalProperties": gen.S{"type": "object", "properties": gen.S{"a": gen.S{"type": "string", "default": "x"}}}}}}}}},
+		"/idx": gen.S{"get": gen.S{"responses": okResponses(), "parameters": gen.Arr(gen.S{"name": "p", "in": "query", "style": "deepObject", "explode": true,
+			"schema": gen.S{"type": "object", "properties": gen.S{"a": gen.S{"type": "array", "items": gen.S{"type": "integer"}}}}})}},
+		"/o": gen.S{"get": gen.S{"responses": okResponses(), "parameters": gen.Arr(gen.S{"name": "o", "in": "query", "schema": gen.S{"type": "object", "properties": gen.S{"k": gen.S{"type": "string"}, "n": gen.S{"type": "integer"}}}},
+			gen.S{"name": "l", "in": "query", "schema": gen.S{"type": "array", "items": gen.S{"type": "string"}}}, gen.S{"name": "s", "in": "query", "schema": gen.S{"type": "string"}})}}})
+	d, err := loadDoc(doc)
+	if err != nil {
+		return
+	}
+	router, err := gorillamux.NewRouter(d)
+	if err != nil {
+		return
+	}
+	form := http.Header{"Content-Type": []string{"application/x-www-form-urlencoded"}}
+	type dcase struct {
+		name string
+		req  *http.Request
+		qp   url.Values
+	}
+	cases := []dcase{
+		{"form-field-under-additionalProperties-schema-with-defaults", newReq("POST", "http://h.t/f", form, []byte("foo=bar")), nil},
+		{"form-field-under-additionalProperties-schema-with-defaults", newReq("POST", "http://h.t/f", form, []byte("foo=bar&zed=1&foo=2")), nil},
+		{"deepObject-array-index", newReq("GET", "http://h.t/idx?p[a][0]=1&p[a][2]=3", nil, nil), nil},
+		{"deepObject-array-index", newReq("GET", "http://h.t/idx?p[a][-1]=1", nil, nil), nil},
+		{"deepObject-array-index", newReq("GET", "http://h.t/idx?p[a][99999]=1", nil, nil), nil},
+		{"caller-supplied-QueryParams-key-without-values", newReq("GET", "http://h.t/o", nil, nil), url.Values{"k": {}, "n": {}}},
+		{"caller-supplied-QueryParams-key-without-values", newReq("GET", "http://h.t/o", nil, nil), url.Values{"l": {}, "s": {}, "o": {}}},
+		{"caller-supplied-QueryParams-key-without-values", newReq("GET", "http://h.t/o", nil, nil), url.Values{"k": nil}},
+		// last: an index the client chooses as large as it likes
+		{"deepObject-array-index-huge", newReq("GET", "http://h.t/idx?p[a][4000000000]=1", nil, nil), nil},
+	}
+	for _, dc := range cases {
+		c.Begin("probe:" + dc.name + " " + dc.req.Method + " " + dc.req.URL.String())
+		c.Distinct("probe:" + dc.name + " " + dc.req.URL.String() + fmt.Sprint(dc.qp))
+		c.Cover("probes", dc.name)
+		for _, multi := range []bool{false, true} {
+			in, err := reqInput(router, dc.req, &openapi3filter.Options{MultiError: multi})
+			if err != nil {
+				continue
+			}
+			if dc.qp != nil {
+				in.QueryParams = dc.qp
+			}
+			c.Eval()
+			if pi := core.Guard(func() { openapi3filter.ValidateRequest(bgCtx, in) }); pi != nil {
+				f := core.PanicFeatures(pi)
+				f["probe"] = dc.name
+				c.Violate(f, map[string]any{"probe": dc.name, "request": dc.req.Method + " " + dc.req.URL.String(), "query_params": dc.qp}, pi.Stack)
+			}
 		}
 	}
 }
